@@ -43,6 +43,11 @@ struct Rec
     uint64_t own_prog;    // progress events made by this thread
     uint64_t poll_others; // progress by others seen at its previous clock read
     int poll_k;           // consecutive clock reads with no progress by anyone else
+    // polling-loop detection across the thread's own progress (task-level spin: yield, re-check)
+    struct { const void* ra; const void* addr; uint64_t val; uint64_t others; int rep; } seen[4];
+    int seen_next;
+    int polling;
+    uint64_t polling_others;
     long act;             // memory-changing atomic ops (watched or not) since its last yield
     // spin equivalence: last focused op that changed nothing
     const void* spin_ra;
@@ -340,7 +345,9 @@ static void reschedule(int blocked)
         if (n > 0)
         {
             int c = 0;
-            if (n > 1 && R[self].prog) c = take_choice(n, blocked ? CK_BLOCK : CK_YIELD, 0);
+            // free alternatives only where the thread really blocks; a yielding (spinning, polling)
+            // thread hands over to its round-robin successor - other orders cost a preemption
+            if (n > 1 && R[self].prog && blocked) c = take_choice(n, CK_BLOCK, 0);
             R[self].prog = 0;
             switch_to(cand[c]);
             return;
@@ -537,6 +544,11 @@ static inline Pre pre_op(int kind, const volatile void* a, const void* ra)
         // a thread that keeps polling the clock while nobody else makes progress repeats the same
         // loop iteration: its operations open no further choice points (reduction, not extension)
         if (r.poll_k >= 2) spinning = true;
+        if (r.polling)
+        {
+            if (epoch - r.own_prog != r.polling_others) r.polling = 0;    // somebody else progressed
+            else spinning = true;
+        }
         if (!spinning)
         {
             in_rt = 1;
@@ -581,6 +593,35 @@ static inline void post_op(Pre p, int kind, const volatile void* a, const void* 
     }
     else
     {
+        if (kind == K_LOAD)
+        {
+            // the same load (site, address, value) seen again and again while nobody else made
+            // progress: the thread (or the tasks it multiplexes) is in a polling loop
+            uint64_t others = epoch - r.own_prog;
+            int hit = -1;
+            for (int i = 0; i < 4; ++i)
+                if (r.seen[i].ra == ra && r.seen[i].addr == (const void*) a) hit = i;
+            if (hit < 0)
+            {
+                hit = r.seen_next++ & 3;
+                r.seen[hit] = {ra, (const void*) a, val, others, 0};
+            }
+            else if (r.seen[hit].val == val && r.seen[hit].others == others)
+            {
+                if (++r.seen[hit].rep >= 3 && !r.polling)
+                {
+                    r.polling = 1;
+                    r.polling_others = others;
+                    tracef("%s is polling (same load, same value, nobody else progressed): choice points suspended\n", tname(self));
+                }
+            }
+            else
+            {
+                r.seen[hit].val = val;
+                r.seen[hit].others = others;
+                r.seen[hit].rep = 0;
+            }
+        }
         bool same = r.spin_valid && r.spin_ra == ra && r.spin_addr == (const void*) a &&
             r.spin_val == val && r.spin_epoch == epoch;
         r.spin_valid = 1;
